@@ -61,6 +61,11 @@ func (p Parser) HandleRawSQLQuery(sql string) (normalizedQuery, redactedQuery st
 	if err != nil {
 		return "", "", nil, ErrQuerySyntaxError
 	}
+	if _, notParsed := stmt.(NotParsedStatement); notParsed {
+		// in default mode Parse tolerates syntax errors and hands back the raw text,
+		// which must never be returned as the "redacted" query
+		return "", "", nil, ErrQuerySyntaxError
+	}
 	outputStmt, _ := p.Parse(sqlStripped)
 
 	normalizedQ := String(stmt)
